@@ -38,44 +38,121 @@ package kravatte
 // SANSE session layer.  Kra / Vatte (the Farfalle compress / expand phases with their queue) are not specified here:
 // they are assumed to touch only the Kravatte object and the output buffer.
 // ---------------------------------------------------------------------------
+// The deck function is abstracted: the Kravatte object's VALUE (all seven fields) maps to an abstract history KH, a
+// successful Kra maps (history, input bytes, bit length, flags) to the next history, a successful Vatte maps
+// (history, bit count, flags) to the output bytes and the next history.  These are NAMES for what Kra / Vatte compute
+// (both are deterministic functions of the object and their arguments and touch nothing else - assumed, they are not
+// verified here); everything SANSE does with them is proved below against the SANSE mode definition
+// (Daemen, Hoffert, Peeters, Van Assche, Van Keer: "Farfalle", section 6.3 Deck-SANSE).
+//@ sort KH
+//@ spec kh(k [25]uint64, kr [25]uint64, x [25]uint64, y [25]uint64, q [200]uint8, qo int, ph int) KH
+//@ macro KHv(v) = kh(v.k, v.kr, v.x, v.y, v.q, v.queueOffsetBits, int(v.phase))
+//@ spec kraS(h KH, data Bytes, bits int, flags int) KH
+//@ spec vatteS(h KH, bits int, flags int) Bytes
+//@ spec vatteH(h KH, bits int, flags int) KH
+//@ spec b1(b uint8) Bytes
+//@ spec xorS(a Bytes, b Bytes) Bytes
+// b1(v) is the one-byte string holding v
+//@ axiom C12.one_byte: forall a bytearr, o int :: {rng(a, o, 1)} rng(a, o, 1) == b1(a[o])
 //@ func (kv *Kravatte) Kra(in []byte, inputBitLen int, flags int) (ret int)
-//@   assume Farfalle compression phase (not specified): changes only the Kravatte object
+//@   assume Farfalle compression phase (not specified): changes only the Kravatte object, as a function of the object, the input bits and the flags
 //@   modifies *kv
+//@   ensures ret == 0 || ret == 1
+//@   defines ret == 0 ==> KHv(kv) == kraS(old(KHv(kv)), old(bytes(in[:(inputBitLen + 7) >> 3])), inputBitLen, flags)
 //@ func (kv *Kravatte) Vatte(out []byte, outBits int, flags int) (ret int)
-//@   assume Farfalle expansion phase (not specified): changes only the Kravatte object and out
-//@   modifies *kv, out[:]
+//@   assume Farfalle expansion phase (not specified): changes only the Kravatte object and out, as a function of the object, the bit count and the flags
+// (only the (outBits+7)/8 requested bytes of out are written - assumed with the rest of this contract)
+//@   modifies *kv, out[0:(outBits + 7) >> 3]
+//@   ensures ret == 0 || ret == 1
+//@   defines ret == 0 ==> bytes(out[:(outBits + 7) >> 3]) == vatteS(old(KHv(kv)), outBits, flags) && KHv(kv) == vatteH(old(KHv(kv)), outBits, flags)
+
+// history <- data || appendix || e . history, for whole-byte data (hop only passes whole bytes: 8*len and the 256-bit
+// tag): the data bytes, then one last byte holding the appendix bits followed by the session bit e.
+//@ macro HA(h, d, bits, app, appLen, e) = kraS(kraS(h, d, bits, 0), b1(app | uint8(e << uint32(appLen))), appLen + 1, 2)
 //@ func (s *sanse) addToHistory(data []byte, dataBitLen int, appendix byte, appendixLen int) (ret int)
 //@   property C12
-//@   requires 0 <= dataBitLen && dataBitLen >> 3 <= len(data) && (dataBitLen & 7 != 0 ==> dataBitLen >> 3 < len(data)) && 1 <= appendixLen && appendixLen <= 2
+//@   requires 0 <= dataBitLen && dataBitLen >> 3 <= len(data) && dataBitLen & 7 == 0 && 1 <= appendixLen && appendixLen <= 2
 //@   modifies s.kravatte
+//@   ensures ret == 0 || ret == 1
+//@   ensures ret == 0 ==> KHv(s.kravatte) == HA(old(KHv(s.kravatte)), old(bytes(data[:dataBitLen >> 3])), dataBitLen, appendix, appendixLen, s.e)
 //@ func memxoris(target []byte, source []byte, bitLen int)
 //@   property C12
 //@   requires 0 <= bitLen && bitLen <= 1125899906842624 && (bitLen + 7) >> 3 <= len(target) && (bitLen + 7) >> 3 <= len(source)
-//@   modifies target[:]
+// only the (bitLen+7)/8 bytes are touched (proved: the cells outside the range keep their values)
+//@   modifies target[0:(bitLen + 7) >> 3]
+//@   defines bitLen & 7 == 0 && ref(target) != ref(source) ==> bytes(target[:bitLen >> 3]) == xorS(old(bytes(target[:bitLen >> 3])), bytes(source[:bitLen >> 3]))
 //@   loop 1
 //@     invariant 0 <= i && i <= byteLen && byteLen == bitLen / 8 && bitLen == old(bitLen)
+//@     invariant forall k int :: byteLen <= k && k < len(target) ==> target[k] == old(target[k])
 
-// wrap: on success the session bit e is toggled exactly once (also for an empty plaintext), so that the next message of
-// the session is domain-separated from this one on both sides.
+// wrap, against Deck-SANSE:   if |A| > 0 or |P| = 0: history <- A || 0 || e . history
+//                             if |P| > 0:  T = F(P || 01 || e . history);  C = P + F(T || 11 || e . history);  history <- P || 01 || e . history
+//                             else:        T = F(history)
+//                             e <- e + 1
+// (on success; the session bit e is toggled exactly once, also for an empty plaintext)
+//@ macro h1of(h0, ad, adBits, dataBits, e) = ((adBits != 0 || dataBits == 0) ? HA(h0, ad, adBits, uint8(0), 1, e) : h0)
 //@ func (s *sanse) wrap(plaintext []byte, ciphertext []byte, dataBitLen int, ad []byte, adBitLen int, tag []byte) (ret int)
 //@   property C12
+// (the tag may lie in the ciphertext's array: byte strings are followed through partial updates of a possibly identical object)
+//@   followaliases
 //@   requires dataBitLen == 8 * len(plaintext) && adBitLen == 8 * len(ad) && len(ciphertext) >= len(plaintext) && len(tag) >= 32
-//@   requires ref(plaintext) != ref(ciphertext) && ref(ad) != ref(ciphertext)
+//@   requires ref(plaintext) != ref(ciphertext) && ref(ad) != ref(ciphertext) && ref(tag) != ref(plaintext) && ref(tag) != ref(ad)
+// (no caller's buffer is the queue array inside the unexported Kravatte object)
+//@   requires ref(plaintext) != ref(&s.kravatte.q) && ref(ad) != ref(&s.kravatte.q) && ref(tag) != ref(&s.kravatte.q) && ref(ciphertext) != ref(&s.kravatte.q)
+// (the tag lies outside the ciphertext bytes: Seal passes the 32 bytes that follow them in the same array)
+//@   requires ref(tag) != ref(ciphertext) || off(tag) >= off(ciphertext) + len(plaintext)
 //@   modifies s.kravatte, s.e, ciphertext[:], tag[:]
+//@   let h0 = KHv(s.kravatte)
+//@   let e0 = s.e
+//@   let A = bytes(ad)
+//@   let P = bytes(plaintext)
 //@   ensures ret == 0 ==> s.e == old(s.e) ^ 1
 //@   ensures ret != 0 ==> s.e == old(s.e)
 //@   ensures ret == 0 || ret == 1
+//@   ensures ret == 0 && dataBitLen != 0 ==> bytes(tag[:32]) == vatteS(HA(h1of(h0, A, adBitLen, dataBitLen, e0), P, dataBitLen, uint8(2), 2, e0), 256, 0)
+//@   ensures ret == 0 && dataBitLen != 0 ==> KHv(s.kravatte) == HA(h1of(h0, A, adBitLen, dataBitLen, e0), P, dataBitLen, uint8(2), 2, e0)
+//@   ensures ret == 0 && dataBitLen == 0 ==> bytes(tag[:32]) == vatteS(h1of(h0, A, adBitLen, dataBitLen, e0), 256, 0)
+//@   ensures ret == 0 && dataBitLen != 0 ==> bytes(ciphertext[:len(plaintext)]) ==
+//@        xorS(vatteS(HA(h1of(h0, A, adBitLen, dataBitLen, e0), bytes(tag[:32]), 256, uint8(3), 2, e0), dataBitLen, 2), P)
 
-// unwrap: success (0) only if the recomputed tag equals the received one (constant-time comparison over all 32 bytes);
+// unwrap, against Deck-SANSE:  if |A| > 0 or |C| = 0: history <- A || 0 || e . history
+//                              if |C| > 0:  P = C + F(T || 11 || e . history);  history <- P || 01 || e . history
+//                              T' = F(history);  e <- e + 1;  success iff T' == T
+// success (0) only if the recomputed tag equals the received one (constant-time comparison over all 32 bytes);
 // the session bit is toggled exactly once whenever the tag was computed.
 //@ func (s *sanse) unwrap(ciphertext []byte, plaintext []byte, dataBitLen int, ad []byte, adBitLen int, tag []byte) (ret int)
 //@   property C12
 //@   requires dataBitLen == 8 * len(ciphertext) && adBitLen == 8 * len(ad) && len(plaintext) >= len(ciphertext) && len(tag) == 32
 //@   requires ref(plaintext) != ref(ciphertext) && ref(ad) != ref(plaintext) && ref(tag) != ref(plaintext)
+//@   requires ref(plaintext) != ref(&s.kravatte.q) && ref(ad) != ref(&s.kravatte.q) && ref(tag) != ref(&s.kravatte.q) && ref(ciphertext) != ref(&s.kravatte.q)
 //@   modifies s.kravatte, s.e, plaintext[:]
+//@   let h0 = KHv(s.kravatte)
+//@   let e0 = s.e
+//@   let A = bytes(ad)
+//@   let C = bytes(ciphertext)
+//@   let T = bytes(tag)
 //@   ensures ret == 0 ==> called(subtle.ConstantTimeCompare) && resultof(subtle.ConstantTimeCompare, r) == 1 && same(argof(subtle.ConstantTimeCompare, y), tag) && len(argof(subtle.ConstantTimeCompare, x)) == 32
 //@   ensures called(subtle.ConstantTimeCompare) ==> s.e == old(s.e) ^ 1
 //@   ensures !called(subtle.ConstantTimeCompare) ==> ret != 0 && s.e == old(s.e)
+// the plaintext handed back is C + F(T || 11 || e . history) ...
+//@   ensures called(subtle.ConstantTimeCompare) && dataBitLen != 0 ==> bytes(plaintext[:len(ciphertext)]) ==
+//@        xorS(vatteS(HA(h1of(h0, A, adBitLen, dataBitLen, e0), T, 256, uint8(3), 2, e0), dataBitLen, 2), C)
+// ... and the tag it is compared with is F(P || 01 || e . history) for THAT plaintext (F(history) when there is none)
+//@   ensures called(subtle.ConstantTimeCompare) && dataBitLen != 0 ==> bytes(argof(subtle.ConstantTimeCompare, x)) ==
+//@        vatteS(HA(h1of(h0, A, adBitLen, dataBitLen, e0), bytes(plaintext[:len(ciphertext)]), dataBitLen, uint8(2), 2, e0), 256, 0)
+//@   ensures called(subtle.ConstantTimeCompare) && dataBitLen == 0 ==> bytes(argof(subtle.ConstantTimeCompare, x)) == vatteS(h1of(h0, A, adBitLen, dataBitLen, e0), 256, 0)
+
+// Opening what was sealed (first sentence of C12), as a lemma over the two contracts above: with the same history, session
+// bit and associated data, unwrap applied to wrap's ciphertext and tag recomputes wrap's key stream (same T), so its
+// plaintext is P again (XOR with the same stream twice) and the tag it recomputes is the one wrap produced.
+//@ axiom C12.xor_involution: forall v Bytes, p Bytes :: xorS(v, xorS(v, p)) == p
+//@ lemma C12.open_of_seal: forall h KH, a Bytes, p Bytes, abits int, bits int, e uint32 :: bits != 0 ==>
+//@     (let h1 = h1of(h, a, abits, bits, e) in
+//@      let t = vatteS(HA(h1, p, bits, uint8(2), 2, e), 256, 0) in
+//@      let v = vatteS(HA(h1, t, 256, uint8(3), 2, e), bits, 2) in
+//@      let c = xorS(v, p) in
+//@      let p2 = xorS(vatteS(HA(h1, t, 256, uint8(3), 2, e), bits, 2), c) in
+//@      p2 == p && vatteS(HA(h1, p2, bits, uint8(2), 2, e), 256, 0) == t)
 
 // Seal / Open copy their input first, so the buffers handed to wrap / unwrap never overlap the output even when the
 // caller passes dst = plaintext[:0] (wrap's and unwrap's non-overlap preconditions are proved at these two calls).
@@ -88,10 +165,13 @@ package kravatte
 //@ func (s *sanse) Seal(dst []byte, nonce []byte, plaintext []byte, additionalData []byte) (out []byte)
 //@   property C12
 //@   requires ref(additionalData) != ref(dst)
+// (no caller's buffer is the queue array inside the unexported Kravatte object)
+//@   requires ref(additionalData) != ref(&s.kravatte.q) && ref(dst) != ref(&s.kravatte.q)
 //@   ensures len(out) == len(dst) + len(plaintext) + 32
 //@ func (s *sanse) Open(dst []byte, nonce []byte, ciphertext []byte, additionalData []byte) (out []byte, err error)
 //@   property C12
 //@   requires ref(additionalData) != ref(dst)
+//@   requires ref(additionalData) != ref(&s.kravatte.q) && ref(dst) != ref(&s.kravatte.q)
 //@   ensures err == nil ==> len(ciphertext) >= 32 && len(out) == len(dst) + len(ciphertext) - 32 && called(kravatte.sanse.unwrap) && resultof(kravatte.sanse.unwrap, ret) == 0
 //@   ensures len(ciphertext) < 32 ==> err != nil
 
